@@ -362,8 +362,16 @@ func run(c *common.Ctx) *common.Result {
 				}
 				outcomes[outcomeKey(o)] = true
 				if cl, d := check(p, o); cl != "" && !reported[cl] {
-					reported[cl] = true
 					choices := append([]int{}, r.Choices...)
+					// replay the recorded schedule on a fresh instance before trusting the failure
+					r2 := &explore.Run{Prefix: choices}
+					o2 := vmrun.Run(stmt, newEnv(), r2, cfgFor(p, false))
+					if cl2, _ := check(p, o2); r2.Err != nil || cl2 != cl {
+						res.Note(fmt.Sprintf("a failure of %s (%s) did not reproduce when its schedule was replayed (second run: %q): not reported", p.Name, cl, cl2))
+						res.Cap("an execution did not replay identically (machinery)")
+						return true
+					}
+					reported[cl] = true
 					res.Violate(common.Violation{Class: cl + "/" + strings.SplitN(p.Name, "/", 2)[0], Case: p.Name + "\n" + p.Src, Detail: d + " | schedule=" + fmt.Sprint(choices),
 						Replay: replayData{Program: p, Choices: choices}})
 					// one counterexample per program is enough: stop exploring it (a
